@@ -227,6 +227,10 @@ func checkAlwaysSigned(r *Report, p *Prog) {
 	// redirect binding
 	fn := p.MustFunc("saml", "AuthnRequest", "Redirect")
 	a := NewAnalysis(p)
+	// the signing of the query may sit in an unexported helper of the package: part of the builder
+	a.Inline = func(f *ssa.Function) bool {
+		return f.Pkg == fn.Pkg && f != fn && p.InLibrary(f) && (f.Object() == nil || !f.Object().Exported()) && (errIndex(f) >= 0 || isPredicate(f))
+	}
 	B := a.B
 	fc := a.Ctx(fn)
 	fc.ensureConds()
@@ -238,14 +242,15 @@ func checkAlwaysSigned(r *Report, p *Prog) {
 			methodEmpty = name
 		}
 	}
-	ss := methodCallsOn(fn, "(*"+dsigPath+".SigningContext).SignString")
+	rg := NewRegion(p, fn, 2)
+	ss := rg.Calls("(*" + dsigPath + ".SigningContext).SignString")
 	cons := p.FnName(fn) + ": redirect URL signed whenever a signature method is configured"
 	if len(ss) != 1 || methodEmpty == "" {
 		r.Bad(rule, cons, p.Pos(fn.Pos()), "no SignString step under SignatureMethod != \"\"")
 		return
 	}
-	nm := "isnil(" + fc.AP(ss[0]) + "#1)"
-	r.Check(B.HasVar(nm) && B.Implies(B.And(accept, B.Not(B.Var(methodEmpty))), B.Var(nm)), rule, cons, p.InstrPos(ss[0]), "accept && method configured => SignString == nil", "a URL is returned unsigned although signing is configured")
+	nm := "isnil(" + rg.Ctx(a, ss[0].C).AP(ss[0].I.(*ssa.Call)) + "#1)"
+	r.Check(B.HasVar(nm) && B.Implies(B.And(accept, B.Not(B.Var(methodEmpty))), B.Var(nm)), rule, cons, p.InstrPos(ss[0].I), "accept && method configured => SignString == nil", "a URL is returned unsigned although signing is configured")
 }
 
 func checkEnveloped(r *Report, p *Prog) {
@@ -260,14 +265,40 @@ func checkEnveloped(r *Report, p *Prog) {
 		fc := a.Ctx(fn)
 		fc.ensureConds()
 		r.Fn(p.FnName(fn))
-		signs := methodCallsOn(fn, "(*"+dsigPath+".SigningContext).SignEnveloped")
-		elems := methodCallsOn(fn, "(*"+modPath+"."+s.typ+").Element")
+		// the signing step may be shared by the four functions through a helper that takes the message as "something
+		// with an Element() method": the function and its helpers are one body, and a call of Element through that
+		// interface is a build of the message when the receiver is the message
+		rg := NewRegion(p, fn, 2)
+		signs := rg.Calls("(*" + dsigPath + ".SigningContext).SignEnveloped")
+		type elemCall struct {
+			at   RI
+			recv RV
+		}
+		var elems []elemCall
+		rg.Each(func(x RI) {
+			c, ok := x.I.(*ssa.Call)
+			if !ok {
+				return
+			}
+			if calleeIs(c, "(*"+modPath+"."+s.typ+").Element") {
+				elems = append(elems, elemCall{x, RV{V: c.Call.Args[0], C: x.C}})
+				return
+			}
+			if c.Call.IsInvoke() && c.Call.Method.Name() == "Element" {
+				for _, o := range rg.Origins(RV{V: c.Call.Value, C: x.C}) {
+					if typeIs(o.V.Type(), modPath, s.typ) {
+						elems = append(elems, elemCall{x, o})
+					}
+				}
+			}
+		})
 		cons := fmt.Sprintf("%s: Signature <- last child of SignEnveloped(%s.Element()) under err == nil", p.FnName(fn), s.typ)
 		if len(signs) != 1 || len(elems) < 1 {
 			r.Bad(rule, cons, p.Pos(fn.Pos()), "no SignEnveloped over the object's element tree")
 			continue
 		}
 		sign := signs[0]
+		signCall := sign.I.(*ssa.Call)
 		var sigStore *ssa.Store
 		for _, b := range fn.Blocks {
 			for _, in := range b.Instrs {
@@ -281,10 +312,35 @@ func checkEnveloped(r *Report, p *Prog) {
 		okS := false
 		why := "the Signature field is never stored"
 		if sigStore != nil {
-			errA := "isnil(" + fc.AP(sign) + "#1)"
-			overEl := sign.Call.Args[1] == ssa.Value(elems[0]) && elems[0].Call.Args[0] == rootOfAddr(sigStore.Addr)
-			okS = derivesFrom(sigStore.Val, sign, 0) && B.HasVar(errA) && fc.Implied(sigStore.Block(), B.Var(errA)) && overEl && strings.Contains(fc.AP(sigStore.Val), "Child[(len(")
-			why = "the stored Signature is not the last child of the signing result over the object's own element tree (or is stored although signing failed): " + fc.AP(sigStore.Val)
+			errOK := false
+			if via, ok := rg.SiteIn(rg.top, sign).(*ssa.Call); ok && via != nil {
+				n := via.Call.Signature().Results().Len()
+				errA := "isnil(" + fc.AP(via) + fmt.Sprintf("#%d)", n-1)
+				if n == 1 {
+					errA = "isnil(" + fc.AP(via) + ")"
+				}
+				errOK = B.HasVar(errA) && fc.Implied(sigStore.Block(), B.Var(errA))
+			}
+			overEl := false
+			for _, e := range elems {
+				if !rg.IsFrom(RV{V: signCall.Call.Args[1], C: sign.C}, e.at) {
+					continue
+				}
+				for _, ro := range rg.Origins(e.recv) {
+					if ro.V == rootOfAddr(sigStore.Addr) {
+						overEl = true
+					}
+				}
+			}
+			lastChild := false
+			desc := fc.AP(sigStore.Val)
+			for _, o := range rg.Origins(RV{V: sigStore.Val, C: rg.top}) {
+				if oap := rg.Ctx(a, o.C).AP(o.V); strings.Contains(oap, "Child[(len(") {
+					lastChild, desc = true, oap
+				}
+			}
+			okS = rg.DerivesFrom(RV{V: sigStore.Val, C: rg.top}, sign) && errOK && overEl && lastChild
+			why = "the stored Signature is not the last child of the signing result over the object's own element tree (or is stored although signing failed): " + desc
 		}
 		r.Check(okS, rule, cons, p.Pos(fn.Pos()), "ok", why)
 		// success return only after the store; error of GetSigningContext propagated
@@ -299,11 +355,15 @@ func checkEnveloped(r *Report, p *Prog) {
 		f2 := a2.Ctx(el)
 		f2.ensureConds()
 		okB := false
-		for _, c := range methodCallsOn(el, "(*"+etreePath+".Element).AddChild") {
-			ap := f2.AP(c.Call.Args[1])
+		rgE := NewRegion(p, el, 2) // the builder with the helpers it shares with the other builders
+		for _, x := range rgE.Calls("(*" + etreePath + ".Element).AddChild") {
+			c := x.I.(*ssa.Call)
+			xfc := rgE.Ctx(a2, x.C)
+			xfc.ensureConds()
+			ap := xfc.AP(c.Call.Args[1])
 			if strings.HasSuffix(ap, s.typ+".Signature") {
 				nm := "isnil(" + ap + ")"
-				if a2.B.HasVar(nm) && f2.Implied(c.Block(), a2.B.Not(a2.B.Var(nm))) {
+				if a2.B.HasVar(nm) && a2.B.Implies(xfc.AbsCond(c.Block()), a2.B.Not(a2.B.Var(nm))) {
 					okB = true
 				}
 			}
@@ -318,25 +378,31 @@ func checkSignedOctets(r *Report, p *Prog) {
 	a := NewAnalysis(p)
 	fc := a.Ctx(fn)
 	fc.ensureConds()
-	ss := methodCallsOn(fn, "(*"+dsigPath+".SigningContext).SignString")
+	rg := NewRegion(p, fn, 2) // the builder with the helpers it is split into
+	ss := rg.Calls("(*" + dsigPath + ".SigningContext).SignString")
 	if len(ss) != 1 {
 		r.Bad(rule, p.FnName(fn)+": signed string", p.Pos(fn.Pos()), "no single SignString call")
 		return
 	}
-	signed := ss[0].Call.Args[1]
+	signCall := ss[0].I.(*ssa.Call)
+	signed := RV{V: signCall.Call.Args[1], C: ss[0].C}
 	// (1) composition of the signed string
 	okComp := true
 	var bad string
-	seqs := concatSeqs(signed, nil, 0)
+	seqs := rg.concatSeqs(signed, nil, 0)
 	for _, seq := range seqs {
 		var pat []string
-		for _, lf := range seq {
-			k, d := queryLeafKind(fc, lf)
+		for i, lf := range seq {
+			k, d := queryLeafKind(rg.Ctx(a, lf.C), lf.V)
 			switch k {
 			case "const":
 				pat = append(pat, d)
 			case "escaped":
-				pat = append(pat, "<"+shortSuffix(d)+">")
+				if i == 1 {
+					pat = append(pat, "<request>") // the encoded request (its encoding is C12's subject)
+				} else {
+					pat = append(pat, "<"+shortSuffix(d)+">")
+				}
 			default:
 				pat = append(pat, "?"+d)
 			}
@@ -344,8 +410,8 @@ func checkSignedOctets(r *Report, p *Prog) {
 		s := strings.Join(pat, "")
 		okThis := false
 		for _, want := range []string{
-			"SAMLRequest=<String()>&SigAlg=<SignatureMethod>",
-			"SAMLRequest=<String()>&RelayState=<relayState>&SigAlg=<SignatureMethod>",
+			"SAMLRequest=<request>&SigAlg=<SignatureMethod>",
+			"SAMLRequest=<request>&RelayState=<relayState>&SigAlg=<SignatureMethod>",
 		} {
 			if s == want {
 				okThis = true
@@ -356,64 +422,62 @@ func checkSignedOctets(r *Report, p *Prog) {
 			bad = s
 		}
 	}
-	r.Check(okComp && len(seqs) == 2, rule, p.FnName(fn)+": the signed string is SAMLRequest=..[&RelayState=..]&SigAlg=.. exactly", p.InstrPos(ss[0]), fmt.Sprintf("%d alternatives, all of the documented shape", len(seqs)), "the string handed to SignString has the shape "+bad+" (expected SAMLRequest=<esc>[&RelayState=<esc>]&SigAlg=<esc>)")
+	r.Check(okComp && len(seqs) == 2, rule, p.FnName(fn)+": the signed string is SAMLRequest=..[&RelayState=..]&SigAlg=.. exactly", p.InstrPos(signCall), fmt.Sprintf("%d alternatives, all of the documented shape", len(seqs)), "the string handed to SignString has the shape "+bad+" (expected SAMLRequest=<esc>[&RelayState=<esc>]&SigAlg=<esc>)")
 	// (2) the emitted query contains the signed string unchanged followed by &Signature=<escaped>
-	for _, b := range fn.Blocks {
-		for _, in := range b.Instrs {
-			st, ok := in.(*ssa.Store)
-			if !ok {
-				continue
-			}
-			fa, ok := st.Addr.(*ssa.FieldAddr)
-			if !ok || fieldName(fa.X.Type(), fa.Field) != "RawQuery" {
-				continue
-			}
-			atomic := map[ssa.Value]bool{signed: true}
-			okAll := true
-			why := ""
-			nSigned := 0
-			for _, seq := range concatSeqs(st.Val, atomic, 0) {
-				idx := -1
-				for i, lf := range seq {
-					if lf == signed {
-						idx = i
-					}
-				}
-				if idx < 0 {
-					continue // unsigned alternative (no signature method)
-				}
-				nSigned++
-				// after: "&Signature=", escaped(base64(sig)) and nothing else
-				rest := seq[idx+1:]
-				okRest := len(rest) == 2
-				if okRest {
-					if s, ok := constStr(rest[0]); !ok || s != "&Signature=" {
-						okRest = false
-					}
-					if k, _ := queryLeafKind(fc, rest[1]); k != "escaped" {
-						okRest = false
-					}
-				}
-				// before: nothing, or the endpoint's existing query and "&"
-				pre := seq[:idx]
-				okPre := len(pre) == 0
-				if len(pre) == 2 {
-					k, _ := queryLeafKind(fc, pre[0])
-					s, okc := constStr(pre[1])
-					okPre = k == "existing-query" && okc && s == "&"
-				}
-				if !okRest || !okPre {
-					okAll = false
-					why = "around the signed string the URL carries something other than [existing query &] ... &Signature=<escaped>"
-				}
-			}
-			if nSigned == 0 {
-				okAll = false
-				why = "the value stored into RawQuery does not contain the string that was signed (it is transformed after signing): " + fc.AP(st.Val)
-			}
-			r.Check(okAll, rule, p.FnName(fn)+": the signed octets are emitted unchanged, followed only by the Signature parameter", p.InstrPos(st), "signed string is an operand of the stored query", why)
+	isSigned := func(v RV) bool { return v.V == signed.V && v.C == signed.C }
+	rg.Each(func(xi RI) {
+		st, ok := xi.I.(*ssa.Store)
+		if !ok {
+			return
 		}
-	}
+		fa, ok := st.Addr.(*ssa.FieldAddr)
+		if !ok || fieldName(fa.X.Type(), fa.Field) != "RawQuery" {
+			return
+		}
+		okAll := true
+		why := ""
+		nSigned := 0
+		for _, seq := range rg.concatSeqs(RV{V: st.Val, C: xi.C}, isSigned, 0) {
+			idx := -1
+			for i, lf := range seq {
+				if isSigned(lf) {
+					idx = i
+				}
+			}
+			if idx < 0 {
+				continue // unsigned alternative (no signature method)
+			}
+			nSigned++
+			// after: "&Signature=", escaped(base64(sig)) and nothing else
+			rest := seq[idx+1:]
+			okRest := len(rest) == 2
+			if okRest {
+				if s, ok := constStr(rest[0].V); !ok || s != "&Signature=" {
+					okRest = false
+				}
+				if k, _ := queryLeafKind(rg.Ctx(a, rest[1].C), rest[1].V); k != "escaped" {
+					okRest = false
+				}
+			}
+			// before: nothing, or the endpoint's existing query and "&"
+			pre := seq[:idx]
+			okPre := len(pre) == 0
+			if len(pre) == 2 {
+				k, _ := queryLeafKind(rg.Ctx(a, pre[0].C), pre[0].V)
+				s, okc := constStr(pre[1].V)
+				okPre = k == "existing-query" && okc && s == "&"
+			}
+			if !okRest || !okPre {
+				okAll = false
+				why = "around the signed string the URL carries something other than [existing query &] ... &Signature=<escaped>"
+			}
+		}
+		if nSigned == 0 {
+			okAll = false
+			why = "the value stored into RawQuery does not contain the string that was signed (it is transformed after signing): " + rg.Ctx(a, xi.C).AP(st.Val)
+		}
+		r.Check(okAll, rule, p.FnName(fn)+": the signed octets are emitted unchanged, followed only by the Signature parameter", p.InstrPos(st), "signed string is an operand of the stored query", why)
+	})
 }
 
 func shortSuffix(ap string) string {
@@ -431,79 +495,93 @@ func checkSPMetadataSigning(r *Report, p *Prog) {
 	fc := a.Ctx(fn)
 	fc.ensureConds()
 	r.Fn(p.FnName(fn))
-	// the append of the signing descriptor
+	// the append of the signing descriptor (in Metadata or in a helper that assembles the key descriptors)
 	found := false
-	for _, b := range fn.Blocks {
-		for _, in := range b.Instrs {
-			c, ok := in.(*ssa.Call)
-			if !ok {
-				continue
-			}
-			bi, ok := c.Call.Value.(*ssa.Builtin)
-			if !ok || bi.Name() != "append" || !typeIs(sliceElem(c.Type()), modPath, "KeyDescriptor") {
-				continue
-			}
-			av := appendedValue(c)
-			if av == nil {
-				continue
-			}
-			src := av
-			if ld, ok := av.(*ssa.UnOp); ok {
-				src = ld.X
-			}
-			use := ""
-			certAP := ""
-			if al, ok := src.(*ssa.Alloc); ok {
-				for _, rf := range *al.Referrers() {
-					if fa, ok := rf.(*ssa.FieldAddr); ok && fieldName(fa.X.Type(), fa.Field) == "Use" {
-						for _, r2 := range *fa.Referrers() {
-							if st, ok := r2.(*ssa.Store); ok {
-								use, _ = constStr(st.Val)
-							}
+	rg := NewRegion(p, fn, 2)
+	rg.Each(func(xi RI) {
+		in := xi.I
+		b := in.Block()
+		c, ok := in.(*ssa.Call)
+		if !ok {
+			return
+		}
+		bi, ok := c.Call.Value.(*ssa.Builtin)
+		if !ok || bi.Name() != "append" || !typeIs(sliceElem(c.Type()), modPath, "KeyDescriptor") {
+			return
+		}
+		av := appendedValue(c)
+		if av == nil {
+			return
+		}
+		xfc := rg.Ctx(a, xi.C)
+		xfc.ensureConds()
+		src := av
+		if ld, ok := av.(*ssa.UnOp); ok {
+			src = ld.X
+		}
+		use := ""
+		certAP := ""
+		if al, ok := src.(*ssa.Alloc); ok {
+			for _, rf := range *al.Referrers() {
+				if fa, ok := rf.(*ssa.FieldAddr); ok && fieldName(fa.X.Type(), fa.Field) == "Use" {
+					for _, r2 := range *fa.Referrers() {
+						if st, ok := r2.(*ssa.Store); ok {
+							use, _ = constStr(st.Val)
 						}
 					}
 				}
 			}
-			if use != "signing" {
+		}
+		if use != "signing" {
+			return
+		}
+		found = true
+		// certificate data: base64 of bytes starting with sp.Certificate.Raw (the KeyInfo literal may be built by a helper
+		// called from this descriptor's literal)
+		for _, c2 := range rg.all {
+			pos := rg.SiteIn(xi.C, RI{firstInstr(c2.fn), c2})
+			if c2 != xi.C && pos == nil {
 				continue
 			}
-			found = true
-			// certificate data: base64 of bytes starting with sp.Certificate.Raw
-			for _, st := range litFieldsAll(fn, modPath, "X509Certificate", "Data") {
-				if st.Block() == b || st.Block().Dominates(b) || b.Dominates(st.Block()) {
-					certAP = fc.AP(st.Val)
+			for _, st := range litFieldsAll(c2.fn, modPath, "X509Certificate", "Data") {
+				var at ssa.Instruction = st
+				if c2 != xi.C {
+					at = pos
+				}
+				if at.Block() == b || at.Block().Dominates(b) || b.Dominates(at.Block()) {
+					certAP = rg.Ctx(a, c2).AP(st.Val)
 				}
 			}
-			cnd := fc.Cond(b)
-			var extra []string
-			var hasMethod bool
-			for _, name := range B.Support(cnd) {
-				ai := a.Atoms[name]
-				if ai == nil {
-					continue
-				}
-				switch {
-				case ai.Kind == "empty" && strings.HasSuffix(ai.Args[0], "ServiceProvider.SignatureMethod"):
-					if B.Implies(cnd, B.Not(B.Var(name))) {
-						hasMethod = true
-					}
-				case ai.Kind == "isnil" && strings.HasSuffix(ai.Args[0], "ServiceProvider.Certificate"):
-				default:
-					extra = append(extra, name)
-				}
-			}
-			cons := p.FnName(fn) + ": signing key descriptor published whenever a signature method is configured"
-			why := ""
-			if !hasMethod {
-				why = "not guarded by SignatureMethod != \"\""
-			}
-			if len(extra) > 0 {
-				why += " publication also depends on " + strings.Join(extra, ", ") + ": for some configurations the signing certificate is missing from the metadata although requests are signed"
-			}
-			r.Check(hasMethod && len(extra) == 0, rule, cons, p.InstrPos(in), "under Certificate != nil && SignatureMethod != \"\" only", why)
-			r.Check(strings.Contains(certAP, "EncodeToString") && strings.Contains(certAP, "Certificate.Raw") || strings.Contains(certAP, "EncodeToString"), rule, p.FnName(fn)+": published signing certificate is sp.Certificate", p.InstrPos(in), certAP, "the published certificate data is "+certAP)
 		}
-	}
+		cnd := xfc.AbsCond(b)
+		var extra []string
+		var hasMethod bool
+		for _, name := range B.Support(cnd) {
+			ai := a.Atoms[name]
+			if ai == nil {
+				continue
+			}
+			switch {
+			case ai.Kind == "empty" && strings.HasSuffix(ai.Args[0], "ServiceProvider.SignatureMethod"):
+				if B.Implies(cnd, B.Not(B.Var(name))) {
+					hasMethod = true
+				}
+			case ai.Kind == "isnil" && strings.HasSuffix(ai.Args[0], "ServiceProvider.Certificate"):
+			default:
+				extra = append(extra, name)
+			}
+		}
+		cons := p.FnName(fn) + ": signing key descriptor published whenever a signature method is configured"
+		why := ""
+		if !hasMethod {
+			why = "not guarded by SignatureMethod != \"\""
+		}
+		if len(extra) > 0 {
+			why += " publication also depends on " + strings.Join(extra, ", ") + ": for some configurations the signing certificate is missing from the metadata although requests are signed"
+		}
+		r.Check(hasMethod && len(extra) == 0, rule, cons, p.InstrPos(in), "under Certificate != nil && SignatureMethod != \"\" only", why)
+		r.Check(strings.Contains(certAP, "EncodeToString") && strings.Contains(certAP, "Certificate.Raw") || strings.Contains(certAP, "EncodeToString"), rule, p.FnName(fn)+": published signing certificate is sp.Certificate", p.InstrPos(in), certAP, "the published certificate data is "+certAP)
+	})
 	if !found {
 		r.Bad(rule, p.FnName(fn)+": signing key descriptor", p.Pos(fn.Pos()), "no use=\"signing\" key descriptor is ever published")
 	}
@@ -522,6 +600,15 @@ func checkSPMetadataSigning(r *Report, p *Prog) {
 		}
 	}
 	r.Check(ok, rule, p.FnName(fn)+": AuthnRequestsSigned reflects whether a signature method is configured", p.Pos(fn.Pos()), "len(SignatureMethod) > 0", "AuthnRequestsSigned is not derived from the configured signature method")
+}
+
+func firstInstr(fn *ssa.Function) ssa.Instruction {
+	for _, b := range fn.Blocks {
+		if len(b.Instrs) > 0 {
+			return b.Instrs[0]
+		}
+	}
+	return nil
 }
 
 // litFieldsAll: all stores to typ.field in fn.
